@@ -16,25 +16,88 @@ enum J {
     Obj(Vec<(String, J)>),
 }
 
-/// body of the first <script> element, cut the way an HTML tokenizer cuts it
+/// body of the first <script> element, cut the way the WHATWG HTML tokenizer cuts it: script data,
+/// script data escaped (after `<!--`) and double escaped (`<script` inside an escaped run: there the
+/// end tag does not close the element).
 pub fn script_body(html: &str) -> Result<(String, String), String> {
     let lower = html.to_ascii_lowercase();
     let start = lower.find("<script").ok_or("no <script> element in the page")?;
     let open_end = lower[start..].find('>').ok_or("unterminated <script tag")? + start + 1;
+    let b = lower.as_bytes();
+    let delim = |i: usize| matches!(b.get(i), Some(b'>') | Some(b'/') | Some(b' ') | Some(b'\t') | Some(b'\n') | Some(b'\x0c') | Some(b'\r'));
+    let at = |i: usize, pat: &str| b.len() >= i + pat.len() && &b[i..i + pat.len()] == pat.as_bytes();
+    #[derive(Clone, Copy, PartialEq)]
+    enum S {
+        Data,
+        Esc(u8),
+        Dbl(u8),
+    }
+    let mut st = S::Data;
     let mut i = open_end;
-    loop {
-        let rel = lower[i..].find("</script").ok_or("no </script> end tag")?;
-        let at = i + rel;
-        let after = lower[at + 8..].chars().next();
-        match after {
-            Some(c) if c == '>' || c == '/' || c.is_ascii_whitespace() => {
-                let rest_start = lower[at..].find('>').map(|e| at + e + 1).unwrap_or(html.len());
-                return Ok((html[open_end..at].to_string(), html[rest_start..].to_string()));
+    while i < b.len() {
+        let c = b[i];
+        match st {
+            S::Data => {
+                if at(i, "<!--") {
+                    st = S::Esc(2);
+                    i += 4;
+                } else if at(i, "</script") && delim(i + 8) {
+                    let rest_start = lower[i..].find('>').map(|e| i + e + 1).unwrap_or(html.len());
+                    return Ok((html[open_end..i].to_string(), html[rest_start..].to_string()));
+                } else {
+                    i += 1;
+                }
             }
-            None => return Ok((html[open_end..at].to_string(), String::new())),
-            _ => i = at + 8,
+            S::Esc(d) => {
+                if c == b'-' {
+                    st = S::Esc((d + 1).min(2));
+                    i += 1;
+                } else if c == b'<' {
+                    if at(i, "</script") && delim(i + 8) {
+                        let rest_start = lower[i..].find('>').map(|e| i + e + 1).unwrap_or(html.len());
+                        return Ok((html[open_end..i].to_string(), html[rest_start..].to_string()));
+                    }
+                    if at(i, "<script") && delim(i + 7) {
+                        st = S::Dbl(0);
+                        i += 8;
+                    } else {
+                        st = S::Esc(0);
+                        i += 1;
+                    }
+                } else if c == b'>' && d == 2 {
+                    st = S::Data;
+                    i += 1;
+                } else {
+                    st = S::Esc(0);
+                    i += 1;
+                }
+            }
+            S::Dbl(d) => {
+                if c == b'-' {
+                    st = S::Dbl((d + 1).min(2));
+                    i += 1;
+                } else if c == b'<' {
+                    if at(i, "</script") && delim(i + 8) {
+                        st = S::Esc(0);
+                        i += 9;
+                    } else {
+                        st = S::Dbl(0);
+                        i += 1;
+                    }
+                } else if c == b'>' && d == 2 {
+                    st = S::Data;
+                    i += 1;
+                } else {
+                    st = S::Dbl(0);
+                    i += 1;
+                }
+            }
         }
     }
+    Err(match st {
+        S::Dbl(_) => "an HTML tokenizer never finds the end of the script element (script data double escaped state: `<!--` then `<script` inside the data)".to_string(),
+        _ => "no </script> end tag".to_string(),
+    })
 }
 
 struct P<'a> {
